@@ -1,7 +1,11 @@
 package checks
 
 import (
+	"context"
 	"fmt"
+	"os"
+	"os/exec"
+	"path/filepath"
 	"sort"
 	"strings"
 	"sync/atomic"
@@ -437,6 +441,77 @@ func c08Retention(c *Ctx) (cases int64, truncating int64) {
 func init() {
 	Register("C08", "model_checking", func(c *Ctx) {
 		r := c.R
+		// worker mode: one process lifetime on a store file (open, three commits, close)
+		if path := os.Getenv("VERIF_C08_WRITER"); path != "" {
+			tag := os.Getenv("VERIF_C08_TAG")
+			client, engine, err := lungo.Open(context.Background(), lungo.Options{Store: lungo.NewFileStore(path, 0o666)})
+			if err != nil {
+				fmt.Println("writer: open:", err)
+				os.Exit(3)
+			}
+			for k := 0; k < 3; k++ {
+				if _, err := client.Database("d").Collection("c").InsertOne(context.Background(), bD("_id", fmt.Sprintf("%s-%d", tag, k))); err != nil {
+					fmt.Println("writer: insert:", err)
+					os.Exit(3)
+				}
+			}
+			engine.Close()
+			os.Exit(0)
+		}
+		// the change log across process lifetimes: event ids stay unique and increasing when a process that opens the
+		// file writes within the same second as the one that closed it (several pairs of short-lived processes)
+		{
+			work := os.Getenv("VERIF_WORK")
+			if work == "" {
+				work = os.TempDir()
+			}
+			var sameSecond, pairs int64
+			for attempt := 0; attempt < 6 && sameSecond < 2; attempt++ {
+				path := filepath.Join(work, fmt.Sprintf("c08-restart-%d.bson", attempt))
+				_ = os.Remove(path)
+				okRuns := true
+				for run := 0; run < 2; run++ {
+					cmd := exec.Command(os.Args[0], "C08", "quick")
+					cmd.Env = append(os.Environ(), "VERIF_C08_WRITER="+path, fmt.Sprintf("VERIF_C08_TAG=a%dr%d", attempt, run), "VERIF_EVIDENCE_DIR="+work)
+					if out, err := cmd.CombinedOutput(); err != nil {
+						r.Broken("restart writer: %v %s", err, out)
+						okRuns = false
+					}
+				}
+				if !okRuns {
+					break
+				}
+				cat, err := lungo.NewFileStore(path, 0o666).Load()
+				_ = os.Remove(path)
+				if err != nil {
+					r.Violation("restart:file-does-not-load", err.Error(), map[string]interface{}{"part": "restart"})
+					break
+				}
+				pairs++
+				evs := c09ReadOplog(cat)
+				if len(evs) != 6 {
+					r.Violation("restart:events", fmt.Sprintf("two processes made three commits each, the change log holds %d events", len(evs)), map[string]interface{}{"part": "restart"})
+					break
+				}
+				if evs[2].ts.T == evs[3].ts.T {
+					sameSecond++
+				}
+				for k := 1; k < len(evs); k++ {
+					a, b := evs[k-1].ts, evs[k].ts
+					if !(b.T > a.T || (b.T == a.T && b.I > a.I)) {
+						r.Violation("restart:event-ids-not-increasing", fmt.Sprintf("after a process restart within one second the change log holds the ids %v: event %d has {%d %d} after {%d %d}", func() (o []string) {
+							for _, e := range evs {
+								o = append(o, fmt.Sprintf("{%d %d}", e.ts.T, e.ts.I))
+							}
+							return
+						}(), k, b.T, b.I, a.T, a.I), map[string]interface{}{"part": "restart"})
+						break
+					}
+				}
+			}
+			r.Set("restart_pairs", pairs)
+			r.Set("restart_pairs_within_one_second", sameSecond)
+		}
 		alpha := c08Alphabet()
 		// quick: every sequence <= 3 from the empty database and <= 3 from a database holding the two sample documents;
 		// thorough: <= 4 and <= 4
